@@ -11,6 +11,8 @@ import (
 	"crypto/sha512"
 	"errors"
 	"fmt"
+	_ "golang.org/x/crypto/blake2b"
+	_ "golang.org/x/crypto/sha3"
 	"io"
 	"math/big"
 
@@ -234,6 +236,103 @@ func runCase(r *mon.Run, c Case) {
 		}
 	}
 	verifyAll(r, c, "honest", pub, m, sig, opts, true)
+
+	// one option struct kept by the caller and rewritten between calls (variant toggled with the context unchanged,
+	// context changed with the variant unchanged, a by-value copy with one field changed): every signature is the RFC
+	// 8032 signature for the options as they are at the time of the call, and verifies only under those
+	if c.Idx%3 == 0 {
+		h64 := sha512.Sum512(msg)
+		ctxA, ctxB := "reused-options-context", "another context"
+		ro := &ed25519.Options{}
+		type st struct {
+			name string
+			set  func()
+			m    []byte
+			dom  func() []byte
+		}
+		steps := []st{
+			{"ctx(A)", func() { ro.Hash, ro.Context = 0, ctxA }, msg, func() []byte { return ref.Dom2(0, []byte(ctxA)) }},
+			{"ph(A) after ctx(A)", func() { ro.Hash = crypto.SHA512 }, h64[:], func() []byte { return ref.Dom2(1, []byte(ctxA)) }},
+			{"ctx(A) after ph(A)", func() { ro.Hash = 0 }, msg, func() []byte { return ref.Dom2(0, []byte(ctxA)) }},
+			{"ctx(B) after ctx(A)", func() { ro.Context = ctxB }, msg, func() []byte { return ref.Dom2(0, []byte(ctxB)) }},
+			{"ph(B) after ctx(B)", func() { ro.Hash = crypto.SHA512 }, h64[:], func() []byte { return ref.Dom2(1, []byte(ctxB)) }},
+			{"ph(no context) after ph(B)", func() { ro.Context = "" }, h64[:], func() []byte { return ref.Dom2(1, nil) }},
+			{"pure after ph", func() { ro.Hash = 0 }, msg, func() []byte { return nil }},
+			{"ctx(A) again", func() { ro.Context = ctxA }, msg, func() []byte { return ref.Dom2(0, []byte(ctxA)) }},
+		}
+		for si, sp := range steps {
+			sp.set()
+			for _, byValue := range []bool{false, true} {
+				use := ro
+				if byValue {
+					cp := *ro
+					use = &cp
+				}
+				var sg []byte
+				var e error
+				pan, pmsg := mon.Try(func() { sg, e = priv.Sign(nil, sp.m, use) })
+				want := rk.Sign(sp.m, sp.dom())
+				r.Eval(nil)
+				r.Hist("reused-options/" + sp.name)
+				if pan || e != nil || !bytes.Equal(sg, want) {
+					r.Violate("Sign/reused-option-struct", fmt.Sprintf("step %d (%s, by-value copy=%v): panic=%v %s err=%v got %x want %x", si, sp.name, byValue, pan, pmsg, e, sg, want), c)
+					continue
+				}
+				var ok bool
+				pan, _ = mon.Try(func() { ok = ed25519.VerifyWithOptions(pub, sp.m, want, use) })
+				if pan || !ok {
+					r.Violate("VerifyWithOptions/reused-option-struct", fmt.Sprintf("step %d (%s, by-value copy=%v): the RFC 8032 signature for the current options is rejected", si, sp.name, byValue), c)
+				}
+				if x, err := ed25519.NewExpandedPublicKey(pub); err == nil {
+					pan, _ = mon.Try(func() { ok = ed25519.VerifyExpandedWithOptions(x, sp.m, want, use) })
+					if pan || !ok {
+						r.Violate("VerifyExpandedWithOptions/reused-option-struct", fmt.Sprintf("step %d (%s)", si, sp.name), c)
+					}
+				}
+				// and the previous step's signature does not verify under the current options
+				if si > 0 {
+					prev := steps[si-1]
+					ro2 := *use
+					if pw := rk.Sign(prev.m, prev.dom()); !bytes.Equal(pw, want) || !bytes.Equal(prev.m, sp.m) {
+						pan, _ = mon.Try(func() { ok = ed25519.VerifyWithOptions(pub, sp.m, pw, &ro2) })
+						if !pan && ok {
+							r.Violate("VerifyWithOptions/reused-option-struct/previous-signature-accepted", fmt.Sprintf("step %d (%s): the signature made under the previous options (%s) verifies under the current ones", si, sp.name, prev.name), c)
+						}
+					}
+				}
+			}
+		}
+		// pre-hash identifiers: only SHA-512 selects Ed25519ph; every other identifier (registered or not, 64-byte
+		// digests included) is refused by Sign and does not verify
+		for _, hid := range []crypto.Hash{crypto.MD5, crypto.SHA1, crypto.SHA224, crypto.SHA256, crypto.SHA384, crypto.SHA512_224, crypto.SHA512_256, crypto.SHA3_256, crypto.SHA3_384, crypto.SHA3_512, crypto.BLAKE2b_256, crypto.BLAKE2b_512, crypto.Hash(20), crypto.Hash(21), crypto.Hash(64), crypto.Hash(255), crypto.Hash(1 << 20)} {
+			for _, ml := range []int{64, 32, len(msg)} {
+				mm := make([]byte, ml)
+				ho := &ed25519.Options{Hash: hid, Context: []string{"", "c"}[ml%2]}
+				var sg []byte
+				var e error
+				pan, _ := mon.Try(func() { sg, e = priv.Sign(nil, mm, ho) })
+				r.Eval(nil)
+				r.Hist("prehash-identifier/other-than-SHA512")
+				if !pan && (e == nil || sg != nil) {
+					r.Violate("Sign/foreign-prehash-identifier-accepted", fmt.Sprintf("Hash=%d message length %d: Sign returned a signature (err=%v)", uint(hid), ml, e), c)
+				}
+				phSig := rk.Sign(h64[:], ref.Dom2(1, []byte(ho.Context)))
+				var ok bool
+				pan, _ = mon.Try(func() { ok = ed25519.VerifyWithOptions(pub, h64[:], phSig, ho) })
+				if !pan && ok {
+					r.Violate("VerifyWithOptions/foreign-prehash-identifier-accepted", fmt.Sprintf("Hash=%d: an Ed25519ph(SHA-512) signature verifies", uint(hid)), c)
+				}
+				bv := ed25519.NewBatchVerifier()
+				pan, _ = mon.Try(func() {
+					bv.AddWithOptions(pub, h64[:], phSig, ho)
+					ok, _ = bv.Verify(nil)
+				})
+				if !pan && ok {
+					r.Violate("BatchVerifier/foreign-prehash-identifier-accepted", fmt.Sprintf("Hash=%d", uint(hid)), c)
+				}
+			}
+		}
+	}
 
 	// mutations: must all be rejected
 	mutate := func(what string, pub ed25519.PublicKey, m, s []byte, o *ed25519.Options) {
